@@ -1,6 +1,6 @@
 #!/bin/bash
 # tools/seeded_one.sh <seeded-id> [tier]: re-runs one seeded change and rewrites its row in seeded/RESULTS.md
-cd /verif || exit 2
+cd "$(dirname "$0")/.." || exit 2
 id=$1; tier="${2:-quick}"; d=seeded/$id; out=seeded/RESULTS.md
 prop=$(python3 -c "import json;print(json.load(open('$d/meta.json'))['property'])")
 [ -n "$(git -C /repo status --porcelain)" ] && { echo "/repo dirty"; exit 2; }
